@@ -42,6 +42,23 @@ def snapshot(o, path="", seen=None):
     return out
 
 
+def container_ids(o):
+    """identities of every mutable container (dict, list, ndarray) reachable from o"""
+    out = set()
+    if isinstance(o, dict):
+        out.add(id(o))
+        for v in o.values():
+            out |= container_ids(v)
+    elif isinstance(o, (list, tuple)):
+        if isinstance(o, list):
+            out.add(id(o))
+        for v in o:
+            out |= container_ids(v)
+    elif isinstance(o, np.ndarray):
+        out.add(id(o))
+    return out
+
+
 def same_value(a, b):
     """structural equality that never decides on symbolic values (same term <=> same S)."""
     if isinstance(a, S) or isinstance(b, S):
@@ -119,6 +136,11 @@ def exercise(V, scheme, nfff, target, proj, tmc, obs_kinds, repeat=False, unsort
             res.append(("cards untouched by get_result()", snapshot(t) == snap_t and snapshot(o) == snap_o))
             res.append(("output.theory echoes the given theory card", same_value(out.theory, t)))
             res.append(("output.observables echoes the given observable card", same_value(out.observables, o)))
+            # the echo is a RECORD of what was given, not a view of the caller's objects: no mutable container of the output is one of the caller's
+            # (otherwise a later edit of the cards rewrites earlier outputs, and an edit of the output rewrites the cards)
+            mine = container_ids(t) | container_ids(o)
+            res.append(("output cards share no mutable container with the caller's cards",
+                        not (container_ids(out.theory) & mine) and not (container_ids(out.observables) & mine)))
             used = r.configs.managers["interpolator"]
             res.append(("output grid is the grid actually used (the interpolator's nodes, in its order)",
                         list(np.asarray(out["xgrid"]["grid"], dtype=float)) == list(np.asarray(used.xgrid.raw, dtype=float))
